@@ -631,6 +631,52 @@ func init() {
 				return paramChainRunToCase(c)
 			}
 			w := Generate(c.Tape, tierProfile(profC16, c.Tier))
+			// some parameter sources are CommandToParams components: they run a
+			// command of their own, which counts like any other process' command
+			cmdSrc := map[string]string{} // node name -> its script
+			for i := range w.Nodes {
+				n := &w.Nodes[i]
+				if n.Kind != KParamSrc || c.Tape.Choose(simrt.StGen, 2, 0) != 1 {
+					continue
+				}
+				var cmds []string
+				for _, v := range n.Vals {
+					cmds = append(cmds, "echo "+v)
+				}
+				cmds = append(cmds, ": "+n.Name)
+				n.Kind = KCmdToParams
+				n.FilePath = strings.Join(cmds, " && ")
+				cmdSrc[n.Name] = n.FilePath
+				for j := range w.Nodes {
+					for k := range w.Nodes[j].Params {
+						if f := w.Nodes[j].Params[k].From; f != nil && f.Node == i {
+							f.Port = "param"
+						}
+					}
+				}
+				c.Probe("command-to-params-source")
+			}
+			if c.Tape.Choose(simrt.StGen, 12, 0) == 1 {
+				// RunTo* with a target set that selects nothing (an empty list, a
+				// mistyped pattern): the closure is empty - no command of any process
+				w.RunToNone = true
+				w.RunToMode = c.Tape.Choose(simrt.StGen, 3, 0)
+				c.Fault("runto-empty-target-set")
+				c.Sample = sample(w)
+				inc := RunInc(w, c.Tape, nil, 0, IncOpts{KillAt: -1, Strategy: strategyOf(c.Tape), Trace: c.Trace})
+				c.Absorb(inc)
+				c.Tasks = 2
+				if v, ok := inconclusiveEnd(inc); ok {
+					return v
+				}
+				if us := userScripts(inc); len(us) > 0 {
+					return Viol("outside-closure-executed", "empty-target-set", "RunTo (mode %d) with a target set that selects no process executed command(s): %v", w.RunToMode, us)
+				}
+				if inc.Sim.End == simrt.EndDeadlock {
+					return Viol("runto-hang", "empty-target-set", "RunTo with an empty target set never returns: %s", endDesc(inc))
+				}
+				return OK()
+			}
 			if c.Tape.Choose(simrt.StGen, 3, 0) == 1 {
 				// (a) leave one port unconnected
 				type slot struct {
@@ -681,6 +727,9 @@ func init() {
 				if len(s.Shell.Trace) > 0 {
 					return Viol("unwired-executed", "", "%s of %s is unconnected, yet command(s) were executed: %v", pname, n.Name, execKeys(s.Shell.Trace, "start", 0))
 				}
+				if us := userScripts(inc); len(us) > 0 {
+					return Viol("unwired-executed", "", "%s of %s is unconnected, yet command(s) were executed: %v", pname, n.Name, us)
+				}
 				if !(s.End == simrt.EndExit && s.ExitCode != 0) {
 					return Viol("unwired-not-refused", "", "%s of %s is unconnected, but the program ended with %s", pname, n.Name, endDesc(inc))
 				}
@@ -711,11 +760,39 @@ func init() {
 			if len(outside) > 0 {
 				return Viol("outside-closure-executed", "", "RunTo%v executed command(s) of process(es) outside the upstream closure: %v", w.RunTo, outside)
 			}
+			ran := map[string]int{}
+			for _, sc := range inc.Sim.Shell.Scripts {
+				ran[sc]++
+			}
+			for _, name := range sortedKeys(cmdSrc) {
+				sc := cmdSrc[name]
+				if !ex.Active[name] && ran[sc] > 0 {
+					return Viol("outside-closure-executed", "", "RunTo%v executed the command of %s (CommandToParams: %s), which is outside the upstream closure", w.RunTo, name, sc)
+				}
+				// (0 times is legitimate: when its consumer needs no item - an empty
+				// partner stream - the program may end before the component ever ran)
+				if ex.Active[name] && ran[sc] > 1 {
+					return Viol("closure-command-count", "", "RunTo%v: the command of %s (CommandToParams, inside the closure) was executed %d times", w.RunTo, name, ran[sc])
+				}
+			}
 			return flowOracle(inc, ex)
 		}})
 }
 
 var _ = fmt.Sprint
+
+// userScripts: the scripts the program started, without the library's own
+// housekeeping (mkfifo / rm of a FIFO).
+func userScripts(inc *Inc) []string {
+	var out []string
+	for _, sc := range inc.Sim.Shell.Scripts {
+		if strings.HasPrefix(sc, "mkfifo ") || strings.HasPrefix(sc, "rm ") {
+			continue
+		}
+		out = append(out, sc)
+	}
+	return out
+}
 
 // refusalOracle: the program must refuse to run (exit != 0) before executing anything.
 func refusalOracle(c *Case, w *WF, what string) Verdict {
